@@ -241,7 +241,44 @@ func runCase(t *rapid.T, replay *caseData) {
 		}
 		got := r.TakeDigest(dbs, keys)
 		ls := lastSave(r)
-		r.Close()
+		// Durable again after the crash: on the recovered server new data is written and snapshotted, and that
+		// snapshot must be what the next restart serves (whatever the crashed attempt left lying around).
+		if strings.HasPrefix(what, "process crash at failpoint") && (evidence.Thorough() || nImages%2 == 0) {
+			clk2 := r.Clock
+			clk2.Advance(1500 * time.Millisecond)
+			_ = r.Select(0)
+			r.Do("SET", "a", fmt.Sprintf("after-recovery-%d", nImages))
+			r.Do("RPUSH", "b", "post", "crash")
+			_ = r.Select(0)
+			want := r.TakeDigest(dbs, keys)
+			_ = r.Select(0)
+			if !save(r) {
+				// SAVE refused or the snapshot did not return: the recovered server cannot snapshot any more
+				rep := r.Do("SAVE")
+				r.Close()
+				fail("%s: after recovering, a new SAVE did not complete (a second attempt answers %s)", what, rep.String())
+			}
+			ts := lastSave(r)
+			now2 := clk2.Now().UnixMilli()
+			r.Close()
+			tmp2 := sut.NewScratchDir("c10r2")
+			_ = sut.CopyDir(tmp, tmp2)
+			r2, err := sut.New(sut.Opts{DataDir: tmp2, RestoreSnapshot: true, Clock: verifhook.NewVirtualClock(time.UnixMilli(now2))})
+			if err != nil {
+				os.RemoveAll(tmp2)
+				fail("%s: after recovering, writing and a completed SAVE, the next start-up failed: %v", what, err)
+			}
+			got2 := r2.TakeDigest(dbs, keys)
+			ls2 := lastSave(r2)
+			r2.Close()
+			os.RemoveAll(tmp2)
+			if d := got2.Diff(aliveAt(want, now2)); d != "" || ls2 != ts {
+				fail("%s: after recovering, new data was written and SAVE completed (LASTSAVE %d); the next restart serves %s with LASTSAVE %d instead of %s (%s)", what, ts, got2.Canon(), ls2, aliveAt(want, now2).Canon(), d)
+			}
+			rec.Add("recovered_then_snapshotted", 1)
+		} else {
+			r.Close()
+		}
 		nImages++
 		rec.Add("images_restored", 1)
 		isA := got.Diff(aliveAt(dA, now)) == "" && (ls == tA)
